@@ -217,6 +217,12 @@ def ev(e: E, env: Dict[str, Any], macros: Dict[str, Macro], depth: int = 0) -> A
                 raise SqlError(f"Conversion Error: {ex}")
         if name == "strftime":
             return args[0].strftime(str(args[1]))
+        if name == "strptime":
+            # the directives the library uses (%G ISO year, %V ISO week, %u ISO weekday, %Y %m %d %j) mean the same in Python
+            try:
+                return datetime.datetime.strptime(str(args[0]), str(args[1]))
+            except ValueError as ex:
+                raise SqlError(f"Invalid Input Error: Could not parse string \"{args[0]}\" according to format specifier \"{args[1]}\": {ex}")
         if name == "replace":
             return str(args[0]).replace(str(args[1]), str(args[2]))
         raise ParseError(f"function {name}")
